@@ -16,7 +16,8 @@ EXPLANATION = (
     "every option / argument name the five commands read (literal or f-string with a finite expansion) is declared by that command; R4 the caches "
     "are read, not recomputed differently: species / find_source_sink / grain_groups derive from _reactants, _products and the declared extra "
     "species only; R5 removal by positions removes exactly those positions and the de-duplicating callers pass positions (shared with C15.R4); "
-    "R6 every property view of Network is recomputed on each read, or, if it memoises, every method that writes one of its inputs resets the memo.")
+    "R6 every property view of Network is recomputed on each read, or, if it memoises, every method that writes one of its inputs resets the memo; "
+    "R7 no command installs a persistent allowed_species filter on a network it goes on adding reactions to.")
 ASSUMPTIONS = [
     "equivalence with a reference model after arbitrary histories (order of reactions after re-filtering, identity of removed duplicates) is not decided",
 ]
@@ -40,6 +41,7 @@ def check(ctx):
     removal_rule(ctx, pkg, "R5")
     _r4_callers(ctx, pkg, "R5")
     _r6(ctx, pkg)
+    _r7(ctx, pkg)
 
 
 def _mutations(fl):
@@ -318,6 +320,35 @@ def _r4(ctx, pkg):
               found=f"{show(simp(src[0][0]))[:50] if src else ''} / {show(simp(snk[0][0]))[:50] if snk else ''}")
 
 
+# ------------------------------------------------------------------ R7  a one-off reduction must not stay behind as a filter
+
+def _r7(ctx, pkg):
+    """Commands edit a network step by step.  `x.allowed_species = [...]` is not a one-off reduction: the list stays on the network
+    and silently rejects (into _skipped_reactions) every reaction a LATER step of the same command adds.  So inside one command
+    function no add_reaction*/append step follows a store to .allowed_species of the same object."""
+    n = 0
+    for f in pkg.files:
+        if not f.startswith("naunet/console/commands/"):
+            continue
+        for fn in ast.walk(pkg.modules[f]):
+            if not isinstance(fn, ast.FunctionDef):
+                continue
+            sets = [(a.lineno, t.value.id) for a in ast.walk(fn) if isinstance(a, ast.Assign) for t in a.targets
+                    if isinstance(t, ast.Attribute) and t.attr == "allowed_species" and isinstance(t.value, ast.Name)]
+            adds = [(c.lineno, c.func.value.id, c.func.attr) for c in ast.walk(fn) if isinstance(c, ast.Call) and isinstance(c.func, ast.Attribute)
+                    and c.func.attr in ("add_reaction", "add_reaction_from_file", "_add_reaction") and isinstance(c.func.value, ast.Name)]
+            if adds:
+                n += 1
+            for ln, obj in sets:
+                later = [a for a in adds if a[1] == obj and a[0] > ln]
+                ctx.check(not later, "R7", f"{f.rsplit('/', 1)[1]}:{fn.name}:{obj}.allowed_species then add", (f, ln),
+                          "no reaction is added to this network after the filter was installed" if not later else
+                          f"`{obj}.allowed_species = ...` installs a persistent filter and `{obj}.{later[0][2]}(..)` at line {later[0][0]} adds reactions afterwards: reactions naming "
+                          "species outside the list (the #X of appended depletion / desorption steps) are silently dropped",
+                          expected="reduce into a new unconstrained Network, then append", found=f"filter at line {ln}, {len(later)} later add calls")
+    ctx.floor("R7", "command functions that add reactions", n, 1)
+
+
 # ------------------------------------------------------------------ R6  derived views follow every edit
 
 MUTATORS = {"append", "add", "update", "pop", "remove", "clear", "extend", "insert", "sort", "reverse", "discard", "difference_update", "intersection_update", "setdefault", "popitem"}
@@ -411,6 +442,7 @@ def _r6(ctx, pkg):
 
 EXT = "naunet/console/commands/extend.py"
 MUTANTS = [
+    {"name": "extend-reduces-through-setter", "file": EXT, "old": "            net = Network(newlist)\n", "new": "            net.allowed_species = allowed_species\n", "rules": ["R7"]},
     {"name": "species-memo-missing-reset", "edits": [
         {"file": NF, "old": "            list[Species]: species in the network\n        \"\"\"\n", "new": "            list[Species]: species in the network\n        \"\"\"\n        if self._spc is not None:\n            return list(self._spc)\n"},
         {"file": NF, "old": "        speclist = sorted(speclist, key=lambda x: (len(connection[x]), x))\n", "new": "        speclist = sorted(speclist, key=lambda x: (len(connection[x]), x))\n        self._spc = speclist\n"},
